@@ -175,3 +175,34 @@ func VH_C08_Containers() {
 	vhAcc_SolarYear(NewSolarYearFromYear(Y))
 	vReach("C08c")
 }
+
+// C08i (per-year): the constructors establish the class invariant InvLunar that the field-level harnesses start from.
+func VH_C08_Inv() {
+	Y, m, d, h, mi, s := vhMoment()
+	l := NewSolar(Y, m, d, h, mi, s).GetLunar()
+	in := func(g, z int) bool { return g >= 0 && g <= 9 && z >= 0 && z <= 11 && g%2 == z%2 }
+	vAssert("inv:year", in(l.yearGanIndex, l.yearZhiIndex) && in(l.yearGanIndexByLiChun, l.yearZhiIndexByLiChun) && in(l.yearGanIndexExact, l.yearZhiIndexExact))
+	vAssert("inv:month", in(l.monthGanIndex, l.monthZhiIndex) && in(l.monthGanIndexExact, l.monthZhiIndexExact))
+	vAssert("inv:day", in(l.dayGanIndex, l.dayZhiIndex) && in(l.dayGanIndexExact, l.dayZhiIndexExact) && in(l.dayGanIndexExact2, l.dayZhiIndexExact2))
+	vAssert("inv:time", in(l.timeGanIndex, l.timeZhiIndex))
+	yi := specMod(l.year-4, 60)
+	vAssert("inv:year-plain", l.yearGanIndex == yi%10 && l.yearZhiIndex == yi%12)
+	yl, ye := specGZ(l.yearGanIndexByLiChun, l.yearZhiIndexByLiChun), specGZ(l.yearGanIndexExact, l.yearZhiIndexExact)
+	dl := specMod(yl-yi+1, 60) - 1
+	vAssert("inv:year-lichun-within-one", dl >= -1 && dl <= 1)
+	lag := specMod(yl-ye, 60)
+	vAssert("inv:year-exact-lags", lag == 0 || lag == 1)
+	mp, me := specGZ(l.monthGanIndex, l.monthZhiIndex), specGZ(l.monthGanIndexExact, l.monthZhiIndexExact)
+	mlag := specMod(mp-me, 60)
+	vAssert("inv:month-exact-lags", mlag == 0 || mlag == 1)
+	dp, dx, d2 := specGZ(l.dayGanIndex, l.dayZhiIndex), specGZ(l.dayGanIndexExact, l.dayZhiIndexExact), specGZ(l.dayGanIndexExact2, l.dayZhiIndexExact2)
+	late := 0
+	if h == 23 {
+		late = 1
+	}
+	vAssert("inv:day-variants", d2 == dp && dx == (dp+late)%60)
+	vAssert("inv:time-formula", l.timeZhiIndex == ((h+1)/2)%12 && l.timeGanIndex == (l.dayGanIndexExact%5*2+l.timeZhiIndex)%10)
+	vAssert("inv:scalars", l.month != 0 && l.month >= -12 && l.month <= 12 && l.day >= 1 && l.day <= 30 && l.hour == h && l.minute == mi && l.second == s && l.weekIndex >= 0 && l.weekIndex <= 6)
+	vAssert("inv:lunar-year", l.year == Y || l.year == Y-1 || l.year == Y+1)
+	vReach("C08i")
+}
